@@ -65,10 +65,18 @@ func validateMintDenom(i interface{}) error {
 }
 
 func validateRewardCoefficient(i interface{}) error {
-	_, ok := i.(sdk.Dec)
+	v, ok := i.(sdk.Dec)
 
 	if !ok {
 		return fmt.Errorf("invalid parameter type: %T", i)
+	}
+
+	if v.IsNil() {
+		return errors.New("reward coefficient cannot be nil")
+	}
+
+	if v.IsNegative() {
+		return fmt.Errorf("reward coefficient cannot be negative: %s", v)
 	}
 
 	return nil
